@@ -363,6 +363,14 @@ func harnessAPI(e *Exec, g *G, fn *ssa.Function, args []Value) (Value, bool) {
 		return tt.Ite(tt.Contains(x, tt.Str("=")), tt.SubStr(x, off, tt.ISub(tt.StrLen(x), off)), tt.Str("")), true
 	case "hasPrefixStr":
 		return tt.PrefixOf(args[1].(*Term), args[0].(*Term)), true
+	case "verifNoop":
+		return nil, true
+	case "envRPC":
+		return Tuple{Ptr(nil), Ptr(nil)}, true
+	case "ctxTimeoutCount":
+		return tt.BV(64, uint64(len(e.ctxTimeouts))), true
+	case "atoiStr":
+		return tt.I2BV(64, tt.StrToInt(args[0].(*Term))), true
 	case "containsEq":
 		return tt.Contains(args[0].(*Term), tt.Str("=")), true
 	case "verifReach":
@@ -370,7 +378,13 @@ func harnessAPI(e *Exec, g *G, fn *ssa.Function, args []Value) (Value, bool) {
 	case "symbolicMode":
 		return tt.True, true
 	case "heldByMe":
-		p := args[0].(Ptr)
+		var p Ptr
+		switch a := args[0].(type) {
+		case Ptr:
+			p = a
+		case Iface:
+			p, _ = a.V.(Ptr)
+		}
 		l := e.lockOf(p)
 		return tt.Bool(l.writer == g), true
 	case "lockHeld":
@@ -917,6 +931,14 @@ func init() {
 	reg("os.Exit", func(e *Exec, g *G, fn *ssa.Function, args []Value) (Value, bool) {
 		e.fail(OutExit, "os.Exit")
 		return nil, true
+	})
+	reg("os.Getenv", func(e *Exec, g *G, fn *ssa.Function, args []Value) (Value, bool) {
+		if e.hcfg != nil && e.hcfg.Env != nil {
+			if k, ok := args[0].(*Term).ConstStr(); ok {
+				return e.tt.Str(e.hcfg.Env[k]), true
+			}
+		}
+		return e.tt.Str(""), true
 	})
 	reg("runtime.Gosched", func(e *Exec, g *G, fn *ssa.Function, args []Value) (Value, bool) { return nil, true })
 	reg("os.IsNotExist", func(e *Exec, g *G, fn *ssa.Function, args []Value) (Value, bool) {
